@@ -45,6 +45,37 @@ fn sides(c: usize, before: bool) -> Vec<Vec<It>> {
     }
     out
 }
+/// sets that contain `#` / `$` next to segment alternatives, only as the outermost item of a side (there the
+/// order in which alternatives are tried cannot matter): alone, and after one inner item
+fn boundary_set_rules(ins: &[It], outs: &[OutIt]) -> Vec<BasicRule> {
+    let p = || ipa("p"); let t = || ipa("t"); let a = || ipa("a");
+    let sets = vec![
+        It::Set(vec![p(), It::WordB]), It::Set(vec![It::WordB, t()]), It::Set(vec![It::SyllB, p()]), It::Set(vec![a(), It::SyllB]),
+        It::Set(vec![It::WordB, It::SyllB]), It::Set(vec![p(), a(), It::WordB]), It::Set(vec![grp_c(), It::WordB]), It::Set(vec![It::SyllB, grp_v()]),
+    ];
+    let inner: Vec<Option<It>> = vec![None, Some(p()), Some(a()), Some(grp_c()), Some(It::SyllB)];
+    let mut envs: Vec<Env> = vec![];
+    let mut befores: Vec<Vec<It>> = vec![]; let mut afters: Vec<Vec<It>> = vec![];
+    for s in &sets { for i in &inner {
+        // `$` next to a set that itself may match `$` or `#` is left out (`$$`, `#$` are not defined)
+        if matches!(i, Some(It::SyllB)) && matches!(s, It::Set(v) if v.iter().any(|m| matches!(m, It::SyllB | It::WordB))) { continue; }
+        let mut b = vec![s.clone()]; if let Some(x) = i { b.push(x.clone()); }
+        let mut af = vec![]; if let Some(x) = i { af.push(x.clone()); } af.push(s.clone());
+        befores.push(b); afters.push(af);
+    } }
+    for b in &befores { envs.push((b.clone(), vec![])); }
+    for af in &afters { envs.push((vec![], af.clone())); }
+    for b in befores.iter().take(8) { for af in afters.iter().take(8) { envs.push((b.clone(), af.clone())); } }
+    let mut v = vec![];
+    for (i, o) in [(ins[2].clone(), outs[1].clone()), (ins[5].clone(), outs[2].clone())] { for e in &envs {
+        v.push(BasicRule { input: i.clone(), output: o.clone(), context: vec![e.clone()], except: vec![] });
+        v.push(BasicRule { input: i.clone(), output: o.clone(), context: vec![], except: vec![e.clone()] });
+    } }
+    // inside an environment set as well
+    for e in envs.iter().take(16) { v.push(BasicRule { input: ins[2].clone(), output: outs[1].clone(), context: vec![e.clone(), (vec![ipa("t")], vec![])], except: vec![] }); }
+    v
+}
+
 fn envs(c: usize) -> Vec<Env> {
     let mut v = vec![];
     for b in sides(c, true) { for a in sides(c, false) { if !(b.is_empty() && a.is_empty()) { v.push((b.clone(), a.clone())); } } }
@@ -136,6 +167,7 @@ pub fn run() -> i32 {
             q3.push(BasicRule { input: i.clone(), output: o.clone(), context: vec![], except: vec![a.clone(), b.clone()] });
         } } }
         run_box(&mut r, "Q3: environment sets of two c=1 environments, both orders, `a > i`, W(I3,4)", q3, &w34);
+        run_box(&mut r, "Q4: sets with boundary members as the outermost item of a side (alone and after one item), context / exception / both sides", boundary_set_rules(&ins, &outs), &w34);
     } else {
         let w35 = word_space(&inventory(3), 5);
         let e1 = envs(1);
@@ -175,6 +207,8 @@ pub fn run() -> i32 {
             t6.push(BasicRule { input: i.clone(), output: o.clone(), context: vec![], except: vec![e.clone()] });
         } }
         run_box(&mut r, "T6: c=1 context / exception, W(I3,6)", t6, &w36);
+        let ins = seg_items(); let outs = out_items();
+        run_box(&mut r, "T7: sets with boundary members as the outermost item of a side, W(I4,5)", boundary_set_rules(&ins, &outs), &w45);
     }
     r.finish()
 }
